@@ -60,7 +60,7 @@ func canaryHolder(t reflect.Type) (holder reflect.Value, target reflect.Value, c
 	return sl, target, check
 }
 
-var hugeAnnounce = []int{1 << 16, 1 << 20, 1<<31 - 1, 1 << 31, 1 << 40, 1 << 62, 1<<63 - 1}
+var hugeAnnounce = intsThatFit(1<<16, 1<<20, 1<<31-1, 1<<31, 1<<40, 1<<62, 1<<63-1)
 
 // c14Stream builds the stream of a case: a random well-formed stream, the
 // fold of a value of another type, or a stream with an announced length the
